@@ -168,6 +168,10 @@ def compare(model: A.Model, before_view: A.View, out_text: str):
                 break
     if before_view is not None and before_view.outside_tokens() != v.outside_tokens():
         fails.append(("wrapper-tokens-changed", {"before": before_view.outside_tokens()[:12], "after": v.outside_tokens()[:12]}))
+    if before_view is not None and before_view.edge_comments()[1] != v.edge_comments()[1]:
+        # what stands behind the last token of the file is outside every binding and layer (a comment in front of the
+        # first token may be the leading comment of the set and move with it when a layer is created or dropped)
+        fails.append(("file-end-comments-changed", {"before": list(before_view.edge_comments()[1]), "after": list(v.edge_comments()[1]), "out": out_text[-300:]}))
     if before_view is not None and len(before_view.let_nodes) == len(v.let_nodes) and not fails:
         # no layer created or dropped: what follows each `in` (comments, blank line) belongs to "the other layers keep their text"
         b, a = before_view.after_in_trivia(), v.after_in_trivia()
